@@ -83,8 +83,9 @@ def run_generated(case):
     first = reif
     ops, flags = [], []
     bad += scan(m, 'generated model')
+    prev_new = None
     for j, (vi, ui, is_input, move) in enumerate(case['convs']):
-        v = vi % len(reif.objs)
+        v = cvlib.resolve_index(vi, reif.objs, prev_new)
         vec = reif.vars[v][1]
         fam = c06.family_of(vec) if vec is not None else []
         if not fam:
@@ -93,8 +94,8 @@ def run_generated(case):
         tvec = {k: Fraction(e) for k, e in cvlib.POOL[tname][1].items()}
         ops.append([v, cvlib.vec_sexp(tvec), bool(is_input), bool(move)])
         try:
-            m.convert_variable(reif.objs[v], m.units.get_unit(tname),
-                               DataDirectionFlow.INPUT if is_input else DataDirectionFlow.OUTPUT, move_annotations=bool(move))
+            prev_new = m.convert_variable(reif.objs[v], m.units.get_unit(tname),
+                                          DataDirectionFlow.INPUT if is_input else DataDirectionFlow.OUTPUT, move_annotations=bool(move))
         except Exception as e:
             flags.append(None)
             break
